@@ -20,8 +20,8 @@ OBLIGATIONS = [
     "Allfed.C18.fillNeg_sum", "Allfed.C18.fillNeg_length", "Allfed.C18.fillNeg_nonneg",
     "Allfed.C18.redistribute_none_iff", "Allfed.C18.redistribute_total",
     "Allfed.C18.redistribute_ge_round1", "Allfed.C18.redistribute_nonneg",
-    "Allfed.C18.bump_never_lowers", "Allfed.C18.bump_within_ceiling",
-    "Allfed.C18.bump_above_ceiling_counterexample",
+    "Allfed.C18.bump_never_lowers", "Allfed.C18.bump_within_ceiling", "Allfed.C18.bump_within_ceiling_of_le",
+    "Allfed.C18.bump_feed_leak_witness", "Allfed.C18.bump_above_ceiling_counterexample",
 ]
 RULE = ("generated arrays (lengths 1..120, magnitudes 1e-6..1e6, zeros, ties, negatives where the code admits them) fed to the four real "
         "helpers of Parameters and to the Lean model; a case is non-trivial when the model takes a non-default branch "
